@@ -498,7 +498,7 @@ func (w *World) specText(text string) string {
 		}
 	}
 	for _, sf := range ordered {
-		if sf.opaque {
+		if sf.opaque || (os.Getenv("GOVC_MACRO") == "" && len(sf.params) > 0) {
 			onCycle[sf] = true
 		}
 		if onCycle[sf] {
